@@ -157,6 +157,9 @@ func (c *pathCtx) oneShot(t *smt.Term) (smt.Result, map[string]uint64) {
 	}
 	r, m := c.s.CheckOneShot(c.pcTerms, t, c.b.Vars)
 	c.dirty = true
+	if r == smt.Unknown {
+		r, m = c.s.CheckFallback(c.pcTerms, t, c.b.Vars)
+	}
 	return r, m
 }
 
